@@ -643,3 +643,130 @@ Proof.
 Qed.
 
 End RunP.
+
+(* ================================================================= D. calc_dep results *)
+(* ---- Status level: the file_dep a calc task returned are part of the definition get_status sees ---- *)
+Lemma fold_addset_In l : forall acc x, In x (fold_left (fun acc f => addset f acc) l acc) <-> In x acc \/ In x l.
+Proof.
+  induction l as [|a l IH]; intros acc x; simpl; [tauto|].
+  rewrite IH, addset_In. split; intros H; intuition auto.
+Qed.
+
+Lemma update_deps_file_dep df vl f :
+  In f (file_dep (update_deps df vl)) <-> In f (file_dep df) \/ In f (calc_list vl k_cfile).
+Proof. unfold update_deps. simpl. apply fold_addset_In. Qed.
+
+Lemma update_deps_rest df vl :
+  targets (update_deps df vl) = targets df /\ uptodate (update_deps df vl) = uptodate df /\
+  act_values (update_deps df vl) = act_values df /\ act_result (update_deps df vl) = act_result df.
+Proof. unfold update_deps. simpl. auto. Qed.
+
+Section CalcStatus.
+Variable md5 : N -> N.
+Variable size_of : N -> Z.
+Variable v : ver.
+Hypothesis HA : fixA v = true.
+Hypothesis HB : fixB v = true.
+
+(* after the merge (the SetDef the interpreter performs before the dependent's Check), the files
+   returned by the calc task are checked like declared ones: up-to-date only if each of them
+   exists, was a dependency of the last successful execution and is unmodified since;
+   and `dependencies` contains them *)
+Lemma calc_dep_status s t vl :
+  db_reflects_ghost md5 s ->
+  let s' := step md5 size_of v s (SetDef t (update_deps (s_defs s t) vl)) in
+  (forall f, In f (calc_list vl k_cfile) -> In f (file_dep (s_defs s' t))) /\
+  (forall ch opts, oget opts arg_dependencies = None ->
+     forall f, In f (calc_list vl k_cfile) ->
+     exists l, action_input (s_defs s' t) ch opts arg_dependencies = Some (KFiles l) /\ In f l) /\
+  (g_status (check md5 v s' t) = UpToDate ->
+   forall f, In f (calc_list vl k_cfile) ->
+     exists_ (s_fs s') f = true /\
+     forall g, s_last_ok s' t = Some g ->
+       In f (file_dep (g_def g)) /\
+       exists then_ now, g_fs g f = Some then_ /\ s_fs s' f = Some now /\ unmodified md5 (s_ck s') then_ now).
+Proof.
+  intros Hinv s'.
+  assert (Hdef : s_defs s' t = update_deps (s_defs s t) vl) by (simpl; apply upd_same).
+  assert (Hin : forall f, In f (calc_list vl k_cfile) -> In f (file_dep (s_defs s' t))).
+  { intros f Hf. rewrite Hdef. apply update_deps_file_dep. auto. }
+  split; [exact Hin|]. split.
+  - intros ch opts Ho f Hf. exists (file_dep (s_defs s' t)). split; [|apply Hin; exact Hf].
+    rewrite action_input_meta by exact Ho. reflexivity.
+  - intros Hu f Hf.
+    assert (Hinv' : db_reflects_ghost md5 s') by (apply (step_inv md5 size_of v HA HB); [reflexivity|exact Hinv]).
+    destruct (sound_at md5 v HA s' t Hinv' Hu) as (_ & _ & _ & H4 & _ & H6).
+    split; [apply H4, Hin, Hf|].
+    intros g Hg. destruct (H6 g Hg) as (_ & Hset & Hfiles). split.
+    + apply Hset. apply Hin. exact Hf.
+    + apply Hfiles. apply Hin. exact Hf.
+Qed.
+
+End CalcStatus.
+
+(* ---- dispatcher level: Dispatch.process_calc puts everything the calc task returned into the
+   waiting node's dependency lists, these lists only grow, and a node is handed to the runner only
+   when every name in them is final ---- *)
+Section CalcDispatch.
+Variable tasks : name -> option Dispatch.task.
+Variable wake_rank : name -> name -> N.
+Variable calc_rank : name -> N.
+
+Lemma fold_add_if_new_In l : forall acc x, In x (fold_left add_if_new l acc) <-> In x acc \/ In x l.
+Proof.
+  induction l as [|a l IH]; intros acc x; simpl; [tauto|].
+  rewrite IH. unfold add_if_new. destruct (mem a acc) eqn:E.
+  - apply mem_In in E. split; intros H; intuition (subst; auto).
+  - rewrite in_app_iff. simpl. split; intros H; intuition auto.
+Qed.
+
+Lemma process_calc_merges nd c cst :
+  calc_values_visible cst = true ->
+  let nd' := process_calc tasks nd c cst in
+  let tc := Dispatch.get_task tasks c in
+  incl (t_calc_new_task tc) (n_all_task nd') /\ incl (t_calc_new_impl tc) (n_all_task nd') /\
+  incl (t_calc_new_calc tc) (n_all_calc nd') /\
+  incl (n_all_task nd) (n_all_task nd') /\ incl (n_all_calc nd) (n_all_calc nd') /\
+  (* and what is new still has to be processed *)
+  (forall x, In x (n_all_task nd' ++ n_all_calc nd') -> In x (n_all_task nd ++ n_all_calc nd) \/ In x (n_pend_task nd' ++ n_pend_calc nd')).
+Proof.
+  intros Hv. unfold process_calc. rewrite Hv. cbv zeta. simpl.
+  set (tc := Dispatch.get_task tasks c).
+  set (impl := fold_left add_if_new (t_calc_new_impl tc) (n_all_task nd ++ t_calc_new_task tc)).
+  set (newc := filter (fun x => negb (mem x (n_all_calc nd))) (fold_left add_if_new (t_calc_new_calc tc) [])).
+  assert (Hc : forall x, In x (t_calc_new_calc tc) -> In x (n_all_calc nd ++ newc)).
+  { intros x Hx. rewrite in_app_iff. destruct (mem x (n_all_calc nd)) eqn:E; [left; apply mem_In; exact E|right].
+    unfold newc. apply filter_In. split; [apply fold_add_if_new_In; auto|rewrite E; reflexivity]. }
+  destruct (fold_add_if_new_ext (t_calc_new_impl tc) (n_all_task nd) (t_calc_new_task tc)) as [ext Eext].
+  fold impl in Eext.
+  repeat split.
+  - intros x Hx. unfold impl. apply fold_add_if_new_In. left. apply in_app_iff. auto.
+  - intros x Hx. unfold impl. apply fold_add_if_new_In. auto.
+  - exact Hc.
+  - intros x Hx. unfold impl. apply fold_add_if_new_In. left. apply in_app_iff. auto.
+  - apply incl_appl, incl_refl.
+  - intros x Hx. rewrite !in_app_iff in *. rewrite Eext in *.
+    rewrite skipn_app, skipn_all, Nat.sub_diag. simpl.
+    destruct Hx as [Hx|[Hx|Hx]]; auto. apply in_app_iff in Hx. destruct Hx; auto.
+Qed.
+
+(* from any dispatcher state satisfying the invariants of Proofs/DispatchInv.v (every state of a
+   serial run does, Proofs/RunnerP.v): the task handed over has ALL its current dependencies
+   final -- the declared ones and the ones merged from calc results -- and lists never shrink *)
+Lemma handed_dynamic_deps_final fuel d p k d' :
+  Inv tasks d -> Pre tasks d -> AllRes tasks d -> QInv d ->
+  (forall z, p = Some z -> Dispatch.st_of tasks d z <> SNone) ->
+  disp_send tasks wake_rank calc_rank fuel d p = (DTask k, d') ->
+  (forall x, In x (n_all_task (Dispatch.node_of tasks d' k) ++ n_all_calc (Dispatch.node_of tasks d' k)) -> final tasks d' x) /\
+  all_grows tasks d d'.
+Proof.
+  intros HI HP HA HQ Hp Hs.
+  pose proof (disp_send_spec tasks wake_rank calc_rank fuel d p (DTask k) d' HI HP HA HQ Hp Hs) as Hpost.
+  split.
+  - pose proof (handed_of_post tasks _ _ _ Hpost) as HK.
+    assert (Hh : handed tasks d' k) by (decompose [and] HK; assumption).
+    exact (h_deps _ _ _ Hh).
+  - unfold disp_post in Hpost. decompose [and] Hpost. assumption.
+Qed.
+
+End CalcDispatch.
